@@ -161,7 +161,10 @@ class RefPG:
             d = dict(l[2])
             c = d.pop('Class')
             return ['link', sc.cv(c), sc.cprops(d)]
-        ids = lambda ds: ['vals', sc.sort_vals([sc.cv(d['NodeID']) for d in ds])]
+        def ids(ds):
+            if any('NodeID' not in d for d in ds):
+                raise Raised('a node without NodeID')       # the listing reads NodeID of every node it returns
+            return ['vals', sc.sort_vals([sc.cv(d['NodeID']) for d in ds])]
         if k == 'by_class':
             return ids([d for d in G['nodes'] if d.get('Class') == op[2]])
         if k == 'by_class_type':
@@ -182,6 +185,8 @@ class RefPG:
         if k == 'matching':
             if not G['nodes']:
                 raise Raised('no graph')
+            if any('NodeID' not in d for d in G['nodes'] + self.graph(op[2])['nodes']):
+                raise Raised('a node without NodeID')
             mine = {d['NodeID'] for d in G['nodes']}
             other = {d['NodeID'] for d in self.graph(op[2])['nodes']}
             return ['vals', sc.sort_vals([sc.cv(x) for x in mine & other])]
@@ -384,7 +389,10 @@ class Lock(Stream):
         return clist(items)
 
     def oracle(self, case, obs):
-        return lock_oracle(case, obs)
+        try:
+            return lock_oracle(case, obs)
+        except Exception as e:      # observations the oracle was not written for are themselves a failure
+            return 'unexpected observations: the oracle could not evaluate this history (%s: %s)' % (type(e).__name__, e)
 
     def key(self, case, obs):
         changing = sum(1 for o in obs['shared'] if o['s'] is not None)
